@@ -1,51 +1,187 @@
 //! C01 / C07: the real `BulkheadLayer` over the scripted inner service.
+//!
+//! Header: `max=<n>` `wait=<ms>|max` `pre=reject` `post=reject` (builder setter order), `preset=small|medium|large`
+//! (the layer is built through `BulkheadLayer::small()/medium()/large()`, customised afterwards by whatever else the
+//! header gives), `ctor=new|default` (`BulkheadConfigBuilder::new()/default()` instead of `BulkheadLayer::builder()`),
+//! `name=<s>` (`.name(s)`).
+//!
+//! ONE layer value is built per case. `arrive <c> svc=<k>` goes through service k (default 0): service k is built
+//! lazily, from the layer value the adapter holds at that moment (odd k: from a clone of it, dropped afterwards),
+//! over its own scripted inner service. `manual clonelayer` replaces the layer value by a clone of itself.
+//! What the property says about "one bulkhead" holds per service; services built from one layer share nothing.
 use crate::world::*;
+use std::cell::RefCell;
+use std::collections::BTreeMap;
+use std::rc::Rc;
+use std::sync::{Arc, Mutex};
+use std::task::Poll;
 use std::time::Duration;
 use tower::{Layer, Service};
-use tower_resilience_bulkhead::{Bulkhead, BulkheadError, BulkheadLayer, BulkheadServiceError};
+use tower_resilience_bulkhead::{Bulkhead, BulkheadConfigBuilder, BulkheadError, BulkheadLayer, BulkheadServiceError};
+
+/// one service built from the layer: the handle callers clone (`template`), handles polled ready and kept (`idle`),
+/// handles that are kept and called again and again (`pool`), and the readiness script of its inner service
+struct Svc {
+    template: Bulkhead<Inner>,
+    inner: Arc<Mutex<InnerShared>>,
+    idle: Vec<Bulkhead<Inner>>,
+    pool: BTreeMap<u64, Bulkhead<Inner>>,
+}
+
+struct Core {
+    layer: Option<BulkheadLayer>,
+    svcs: BTreeMap<usize, Svc>,
+    gone: bool,
+}
 
 pub struct Adapter {
-    svc: Bulkhead<Inner>,
-    idle: Vec<Bulkhead<Inner>>,
-    gone: bool,
+    core: Rc<RefCell<Core>>,
+}
+
+fn build_layer(kv: &Kv) -> BulkheadLayer {
+    let preset = kv.get("preset");
+    let mut b = match (preset, kv.get("ctor")) {
+        (Some("small"), _) => BulkheadLayer::small(),
+        (Some("medium"), _) => BulkheadLayer::medium(),
+        (Some("large"), _) => BulkheadLayer::large(),
+        (_, Some("new")) => BulkheadConfigBuilder::new(),
+        (_, Some("default")) => BulkheadConfigBuilder::default(),
+        _ => BulkheadLayer::builder(),
+    };
+    // a preset is customised only by what the header names; without a preset `max` is always set (default 1)
+    let is_preset = matches!(preset, Some("small") | Some("medium") | Some("large"));
+    if !is_preset || kv.get("max").is_some() {
+        b = b.max_concurrent_calls(kv.u64("max", 1) as usize);
+    }
+    // builder setter order: `pre=reject` calls reject_when_full() BEFORE the wait is set (the wait wins),
+    // `post=reject` calls it AFTER (zero wait wins): the last setter decides
+    if kv.get("pre") == Some("reject") {
+        b = b.reject_when_full();
+    }
+    if kv.get("wait") == Some("max") {
+        b = b.max_wait_duration(Duration::MAX);
+    } else if let Some(ms) = kv.opt_u64("wait") {
+        b = b.max_wait_duration(Duration::from_millis(ms));
+    }
+    if kv.get("post") == Some("reject") {
+        b = b.reject_when_full();
+    }
+    if let Some(n) = kv.get("name") {
+        b = b.name(n);
+    }
+    b.build()
 }
 
 impl Adapter {
     pub fn new(kv: &Kv) -> Adapter {
-        let mut b = BulkheadLayer::builder().max_concurrent_calls(kv.u64("max", 1) as usize);
-        // builder setter order: `pre=reject` calls reject_when_full() BEFORE the wait is set (the wait wins),
-        // `post=reject` calls it AFTER (zero wait wins): the last setter decides
-        if kv.get("pre") == Some("reject") {
-            b = b.reject_when_full();
-        }
-        if kv.get("wait") == Some("max") {
-            b = b.max_wait_duration(Duration::MAX);
-        } else if let Some(ms) = kv.opt_u64("wait") {
-            b = b.max_wait_duration(Duration::from_millis(ms));
-        }
-        if kv.get("post") == Some("reject") {
-            b = b.reject_when_full();
-        }
-        let layer = b.build();
-        Adapter { svc: layer.layer(Inner::new()), idle: Vec::new(), gone: false }
+        let mut core = Core { layer: Some(build_layer(kv)), svcs: BTreeMap::new(), gone: false };
+        // service 0 exists from the start (as it always did)
+        core.svc(0);
+        Adapter { core: Rc::new(RefCell::new(core)) }
     }
 }
 
+/// The result as a caller sees it. The variant is read off the value by pattern matching; what the error's accessors
+/// (`is_bulkhead`, `is_inner`, `bulkhead_error`, `into_inner`) and its conversion into the umbrella
+/// `ResilienceError` report about the same value must say the same thing ("rejected with the bulkhead timeout error"),
+/// else the result is rendered `err:accessor-mismatch:…`.
 pub fn render(r: Result<Resp, BulkheadServiceError<IErr>>) -> String {
-    match r {
-        Ok(x) => format!("ok:{}", x.v),
-        Err(BulkheadServiceError::Inner(e)) => format!("err:inner{}:{}", e.kind, e.v),
-        Err(BulkheadServiceError::Bulkhead(BulkheadError::Timeout)) => "err:timeout".into(),
-        Err(BulkheadServiceError::Bulkhead(BulkheadError::BulkheadFull { .. })) => "err:full".into(),
+    use tower_resilience_core::ResilienceError;
+    let e = match r {
+        Ok(x) => return format!("ok:{}", x.v),
+        Err(e) => e,
+    };
+    let (text, is_b) = match &e {
+        BulkheadServiceError::Inner(x) => (format!("err:inner{}:{}", x.kind, x.v), false),
+        BulkheadServiceError::Bulkhead(BulkheadError::Timeout) => ("err:timeout".to_string(), true),
+        BulkheadServiceError::Bulkhead(BulkheadError::BulkheadFull { .. }) => ("err:full".to_string(), true),
+    };
+    if e.is_bulkhead() != is_b || e.is_inner() == is_b || e.bulkhead_error().is_some() != is_b {
+        return format!("err:accessor-mismatch:{}", text);
     }
+    if is_b {
+        let inner_kind = matches!(e.bulkhead_error(), Some(BulkheadError::Timeout));
+        let same = match ResilienceError::<IErr>::from(e) {
+            ResilienceError::Timeout { layer } => inner_kind && layer == "bulkhead",
+            ResilienceError::BulkheadFull { .. } => !inner_kind,
+            _ => false,
+        };
+        if !same {
+            return format!("err:accessor-mismatch:{}", text);
+        }
+    } else {
+        match e.into_inner() {
+            Some(x) if format!("err:inner{}:{}", x.kind, x.v) == text => {}
+            _ => return format!("err:accessor-mismatch:{}", text),
+        }
+    }
+    text
 }
 
-impl Mw for Adapter {
+/// what polling a handle ready came to
+enum Rdy {
+    Ready,
+    /// still pending when the caller gave up
+    NotReady,
+    /// `poll_ready` failed: the rendered error; the handle must be discarded
+    Failed(String),
+}
+
+/// Poll `h` ready the way a caller does (`ready().await`): until the answer is not `Pending`, at most once per
+/// scripted answer (`rdy=<script>`: what the inner service answers to the successive `poll_ready` calls, 'p' pending,
+/// 'r' ready, 'e' error; no script: the inner service is ready).
+fn ready_handle(inner: &Arc<Mutex<InnerShared>>, h: &mut Bulkhead<Inner>, script: &str) -> Rdy {
+    if !script.is_empty() {
+        inner.lock().unwrap().ready_script = script.chars().collect();
+    }
+    let mut res = Rdy::NotReady;
+    for _ in 0..script.len().max(1) {
+        match poll_ready_once::<_, Req>(h) {
+            Poll::Ready(Ok(())) => {
+                res = Rdy::Ready;
+                break;
+            }
+            Poll::Ready(Err(e)) => {
+                res = Rdy::Failed(render(Err(e)));
+                break;
+            }
+            Poll::Pending => {}
+        }
+    }
+    if !script.is_empty() {
+        inner.lock().unwrap().ready_script.clear();
+    }
+    res
+}
+
+impl Core {
+    fn svc(&mut self, k: usize) -> &mut Svc {
+        if !self.svcs.contains_key(&k) {
+            let inner = Inner::new();
+            let shared = inner.shared.clone();
+            let layer = self.layer.as_ref().expect("layer");
+            let template = if k % 2 == 1 {
+                // a clone of the layer value, taken after other services were built, dropped right away
+                let l2 = layer.clone();
+                l2.layer(inner)
+            } else {
+                layer.layer(inner)
+            };
+            self.svcs.insert(k, Svc { template, inner: shared, idle: Vec::new(), pool: BTreeMap::new() });
+        }
+        self.svcs.get_mut(&k).unwrap()
+    }
+
     /// `via=` says how the caller obtains the handle it calls (all are legitimate Tower usage and must behave alike):
     /// `clone` (default) clone the template, ready the clone, call it; `readyclone` ready the template first, then
     /// clone it, ready the clone, call the clone (the template stays ready-but-uncalled); `swap` the
     /// `mem::replace` idiom: ready the template, leave a fresh clone in its place, call the readied one;
-    /// `template` ready and call the template itself.
+    /// `template` ready and call the template itself; `pool h=<n> [from=<m>]` a handle that is kept and called again
+    /// by later arrivals with the same `h` (created at first use as a clone of the template, or of pool handle m —
+    /// a clone taken from a handle that has already made calls).
+    /// `rdy=<script>` scripts the inner service's answers to the readiness polls of the handle that is going to be
+    /// called. A handle whose `poll_ready` failed is discarded (the caller gets the error, `result c err:inner9:0`);
+    /// a handle that stays pending is not called (`result c notready`).
     fn arrive(&mut self, c: usize, kv: &Kv) -> Option<CallFut> {
         if self.gone {
             log_raw("noop".into());
@@ -53,79 +189,127 @@ impl Mw for Adapter {
         }
         let req = Req::new(c, kv);
         let via = kv.str("via", "clone");
-        let ready = |svc: &mut Bulkhead<Inner>| matches!(poll_ready_once(svc), std::task::Poll::Ready(Ok(())));
+        let script = kv.str("rdy", "");
+        let s = self.svc(kv.u64("svc", 0) as usize);
+        let inner = s.inner.clone();
+        let refused = |r: Rdy| match r {
+            Rdy::Failed(e) => log(format!("result {} {}", c, e)),
+            _ => log(format!("result {} notready", c)),
+        };
         let fut = match via.as_str() {
             "readyclone" => {
-                if !ready(&mut self.svc) {
+                if !matches!(ready_handle(&inner, &mut s.template, ""), Rdy::Ready) {
                     log(format!("result {} notready", c));
                     return None;
                 }
-                let mut svc = self.svc.clone();
-                if !ready(&mut svc) {
-                    log(format!("result {} notready", c));
-                    return None;
+                let mut h = s.template.clone();
+                match ready_handle(&inner, &mut h, &script) {
+                    Rdy::Ready => h.call(req),
+                    r => {
+                        refused(r);
+                        return None;
+                    }
                 }
-                svc.call(req)
             }
-            "swap" => {
-                if !ready(&mut self.svc) {
-                    log(format!("result {} notready", c));
-                    return None;
+            "swap" | "template" => {
+                // the caller keeps another clone around: a handle whose readiness failed is replaced by it
+                let backup = if script.contains('e') { Some(s.template.clone()) } else { None };
+                match ready_handle(&inner, &mut s.template, &script) {
+                    Rdy::Ready => {
+                        if via == "swap" {
+                            let fresh = s.template.clone();
+                            let mut readied = std::mem::replace(&mut s.template, fresh);
+                            readied.call(req)
+                        } else {
+                            s.template.call(req)
+                        }
+                    }
+                    r => {
+                        if let (Rdy::Failed(_), Some(b)) = (&r, backup) {
+                            drop(std::mem::replace(&mut s.template, b));
+                        }
+                        refused(r);
+                        return None;
+                    }
                 }
-                let fresh = self.svc.clone();
-                let mut readied = std::mem::replace(&mut self.svc, fresh);
-                readied.call(req)
             }
-            "template" => {
-                if !ready(&mut self.svc) {
-                    log(format!("result {} notready", c));
-                    return None;
+            "pool" => {
+                let hid = kv.u64("h", 0);
+                if !s.pool.contains_key(&hid) {
+                    let src = kv.opt_u64("from").and_then(|m| s.pool.get(&m)).unwrap_or(&s.template).clone();
+                    s.pool.insert(hid, src);
                 }
-                self.svc.call(req)
+                let h = s.pool.get_mut(&hid).unwrap();
+                match ready_handle(&inner, h, &script) {
+                    Rdy::Ready => h.call(req),
+                    r => {
+                        if matches!(r, Rdy::Failed(_)) {
+                            s.pool.remove(&hid);
+                        }
+                        refused(r);
+                        return None;
+                    }
+                }
             }
             _ => {
-                let mut svc = self.svc.clone();
-                if !ready(&mut svc) {
-                    log(format!("result {} notready", c));
-                    return None;
+                let mut h = s.template.clone();
+                match ready_handle(&inner, &mut h, &script) {
+                    Rdy::Ready => h.call(req),
+                    r => {
+                        refused(r);
+                        return None;
+                    }
                 }
-                svc.call(req)
             }
         };
         Some(held(fut, render))
     }
-    /// `manual readyidle`: a handle is polled ready and then kept, never called (a balancer's ready-cache, a request
-    /// abandoned between `ready()` and `call()`); it must not cost capacity.
+}
+
+impl Mw for Adapter {
+    fn arrive(&mut self, c: usize, kv: &Kv) -> Option<CallFut> {
+        self.core.borrow_mut().arrive(c, kv)
+    }
+    /// a request made from inside a destructor (`manual ondrop`): the same paths as `arrive`
     fn requester(&self) -> Option<Requester> {
-        if self.gone {
+        if self.core.borrow().gone {
             return None;
         }
-        let template = self.svc.clone();
-        Some(std::rc::Rc::new(move |c: usize, kv: &Kv| {
-            let mut svc = template.clone();
-            if !matches!(poll_ready_once(&mut svc), std::task::Poll::Ready(Ok(()))) {
-                log(format!("result {} notready", c));
-                return None;
-            }
-            Some(held(svc.call(Req::new(c, kv)), render))
+        let core = self.core.clone();
+        Some(Rc::new(move |c: usize, kv: &Kv| match core.try_borrow_mut() {
+            Ok(mut core) => core.arrive(c, kv),
+            Err(_) => None,
         }))
     }
-    /// `manual dropsvc`: every handle (template, idle handles) is dropped while calls may be in flight or not
-    /// even polled yet; the handle is re-created from the layer for later arrivals — which therefore go through
-    /// "the same bulkhead" only if the layer shares its state… it does not (each `layer()` call makes a new
-    /// semaphore), so later `arrive`s are refused on both sides (`noop`).
-    fn manual(&mut self, what: &str, _kv: &Kv) {
+    /// `manual dropsvc`: every handle of every service (templates, idle and pooled handles) and the layer value are
+    /// dropped while calls may be in flight or not even polled yet; later `arrive`s are refused on both sides (`noop`).
+    /// `manual readyidle [svc=k] [rdy=<script>]`: a handle is polled ready and then kept, never called (a balancer's
+    /// ready-cache, a request abandoned between `ready()` and `call()`); it must not cost capacity. If its readiness
+    /// fails it is discarded — which must not concern anybody else either.
+    /// `manual clonelayer`: the layer value is replaced by a clone of itself (services built later come from the clone).
+    fn manual(&mut self, what: &str, kv: &Kv) {
+        let mut core = self.core.borrow_mut();
         if what == "dropsvc" {
-            self.gone = true;
-            self.idle.clear();
-            let dummy = BulkheadLayer::builder().max_concurrent_calls(1).build().layer(Inner::new());
-            drop(std::mem::replace(&mut self.svc, dummy));
+            core.gone = true;
+            core.svcs.clear();
+            core.layer = None;
             log_raw("#dropsvc".into());
         }
-        if what == "readyidle" && !self.gone {
-            let mut h = self.svc.clone();
-            let _ = poll_ready_once(&mut h);
-            self.idle.push(h);
+        if core.gone {
+            return;
+        }
+        if what == "readyidle" {
+            let script = kv.str("rdy", "");
+            let s = core.svc(kv.u64("svc", 0) as usize);
+            let mut h = s.template.clone();
+            let inner = s.inner.clone();
+            if !matches!(ready_handle(&inner, &mut h, &script), Rdy::Failed(_)) {
+                s.idle.push(h);
+            }
+        }
+        if what == "clonelayer" {
+            let l2 = core.layer.as_ref().map(|l| l.clone());
+            core.layer = l2;
         }
     }
 }
